@@ -450,8 +450,12 @@ func runEngineE(p *Prog, o *obls) {
 			for _, b := range fn.Blocks {
 				cond := ifCond(b)
 				bo, ok := cond.(*ssa.BinOp)
-				if !ok || bo.Op != token.EQL {
+				if !ok || (bo.Op != token.EQL && bo.Op != token.NEQ) {
 					continue
+				}
+				eqSucc := b.Succs[0]
+				if bo.Op == token.NEQ {
+					eqSucc = b.Succs[1]
 				}
 				isLenC := func(v ssa.Value) bool {
 					call, ok := p.origin(v).(*ssa.Call)
@@ -468,7 +472,7 @@ func runEngineE(p *Prog, o *obls) {
 					}
 					return false
 				}
-				before := seededCounts(fn, b.Succs[0], isShrink)
+				before := seededCounts(fn, eqSucc, isShrink)
 				var miss []string
 				for _, rb := range fn.Blocks {
 					last := rb.Instrs[len(rb.Instrs)-1]
